@@ -77,9 +77,10 @@ def check_one(pid, args):
     if pid not in PROPERTIES:
         print('unknown or unclaimed property', pid)
         return 2
-    ev_path = os.path.join(VERIF, 'evidence', pid + '.json')
+    evdir = os.environ.get('VERIF_EVIDENCE', os.path.join(VERIF, 'evidence'))
+    ev_path = os.path.join(evdir, pid + '.json')
     os.makedirs(os.path.dirname(ev_path), exist_ok=True)
-    rep_dir = os.path.join(VERIF, 'evidence', 'reports', pid)
+    rep_dir = os.path.join(evdir, 'reports', pid)
     os.makedirs(rep_dir, exist_ok=True)
     for f in os.listdir(rep_dir):
         os.remove(os.path.join(rep_dir, f))
